@@ -627,15 +627,61 @@ pub fn cmd_stopstart(_a: &[&str]) -> String {
             Ok(c) => fields(c),
             Err(e) => format!("err_{:?}", e).replace(' ', "_"),
         };
+        // a third life: the daemon stops again and the next one publishes as many records as the generation the attached client last
+        // saw stands for, without the client looking in between; then, nothing in flight, the client asks
+        drop(w2);
+        let mut w3 = ShmWriter::new(std::path::Path::new(&path)).expect("third ShmWriter::new");
+        let k = (gen_after_write / 2).max(1);
+        let mut last = rec(300, ClockStatus::Synchronized);
+        for i in 0..k {
+            last = rec(500 + i, ClockStatus::Synchronized);
+            w3.write(&last);
+        }
+        let gen_third = gen_of(&path);
+        let old3 = match old_reader.snapshot() {
+            Ok(c) => fields(c),
+            Err(e) => format!("err_{:?}", e).replace(' ', "_"),
+        };
         format!(
-            "gen_before_stop={} gen_after_stop={} version_after_stop={} record_changed_by_stop={} attached_client_after_stop={} new_client_after_stop={} gen_after_restart={} gen_after_first_write={} attached_client_after_restart={}",
-            gen_before_stop, gen_after_stop, ver_after_stop, rec_before != rec_after, old, newr, gen_after_restart, gen_after_write, old2
+            "gen_before_stop={} gen_after_stop={} version_after_stop={} record_changed_by_stop={} attached_client_after_stop={} new_client_after_stop={} gen_after_restart={} gen_after_first_write={} attached_client_after_restart={} third_life_publications={} gen_third_life={} last_published={} attached_client_third_life={}",
+            gen_before_stop, gen_after_stop, ver_after_stop, rec_before != rec_after, old, newr, gen_after_restart, gen_after_write, old2, k, gen_third, fields(&last), old3
         )
     }));
     let _ = std::fs::remove_file(&path);
     match res {
         Ok(s) => format!("ok {}", s),
         Err(p) => format!("panic {}", crate::panic_msg(&p).replace(' ', "_")),
+    }
+}
+
+/// recreate_link <hex bytes>: the well-known path is a SYMBOLIC LINK to the segment file (a common deployment: /var/run/clockbound/shm ->
+/// a file elsewhere); ShmWriter::new runs on the link.  Prints the target file afterwards, whether it is still the same inode and whether
+/// the path is still a link.
+pub fn cmd_recreate_link(a: &[&str]) -> String {
+    use std::os::unix::fs::MetadataExt;
+    let target = tmp_path("rl_target");
+    let link = tmp_path("rl_link");
+    let hex = a.get(0).copied().unwrap_or("");
+    let bytes: Vec<u8> = (0..hex.len() / 2).map(|i| u8::from_str_radix(&hex[2 * i..2 * i + 2], 16).unwrap_or(0)).collect();
+    write_file(&target, &bytes);
+    let _ = std::fs::remove_file(&link);
+    if std::os::unix::fs::symlink(&target, &link).is_err() {
+        return "io".into();
+    }
+    let ino_before = std::fs::metadata(&target).map(|m| m.ino()).unwrap_or(0);
+    let r = std::panic::catch_unwind(|| ShmWriter::new(std::path::Path::new(&link)).map(|_| ()));
+    let after = std::fs::read(&target).unwrap_or_default();
+    let ino_after = std::fs::metadata(&target).map(|m| m.ino()).unwrap_or(0);
+    let still_link = std::fs::symlink_metadata(&link).map(|m| m.file_type().is_symlink()).unwrap_or(false);
+    let via_link = std::fs::read(&link).unwrap_or_default();
+    let _ = std::fs::remove_file(&link);
+    let _ = std::fs::remove_file(&target);
+    let hexs: String = after.iter().map(|b| format!("{:02x}", b)).collect();
+    let hexl: String = via_link.iter().map(|b| format!("{:02x}", b)).collect();
+    match r {
+        Ok(Ok(())) => format!("ok same_inode={} still_link={} bytes={} via_link={}", ino_before == ino_after && ino_before != 0, still_link, hexs, hexl),
+        Ok(Err(e)) => format!("err {}", e).replace(' ', "_"),
+        Err(p) => format!("panic {}", crate::panic_msg(&p)),
     }
 }
 
